@@ -90,6 +90,7 @@ def _m1(quick):
         ('srv', 's0', 1), ('srv-', 's1'), ('srv+', 's1', 0),
         ('idg', 'g', 1), ('idg', 'g', 2),
         ('state', 's0', 'frozen', 0), ('state', 's0', 'up', -1),
+        ('cell-', 'rack:1'), ('cell+', 'rack:1'), ('cell-', 'rack:0'),
         ('tick', 40), ('noop',), ('restart',),
     )
     return cfg
